@@ -1,7 +1,7 @@
 """C07 — EPA returns the minimum translation vector whenever it reports success (structural clauses)."""
 from . import scopes
 from ..core.report import DOMAIN_D
-from ..rules import eager, epa, mink, buffers, loops, degree, unpack
+from ..rules import eager, epa, mink, buffers, loops, degree, unpack, misc2
 from .common import e1
 
 MODS = ["distance3d.epa"]
@@ -45,4 +45,6 @@ def run(idx, rep, tier):
     ok = isinstance(res, tuple) and len(res) == 3 and res[0] == Fraction(1)
     rep.check(ok, "R-FACEROLE", f.key + "|returned vector is a length (normal * distance)", f.where,
               "every returned translation vector must have length degree 1 (unit normal times a distance); inferred degrees %s" % (res,))
+    misc2.r_dupcond(idx, rep, [m.name for m in idx.lib_modules()], floor=3)
+    epa.r_loudcap(idx, rep)
     unpack.r_unpack(idx, rep, floor=1)
